@@ -20,6 +20,7 @@ subprocess.check_call(["git", "-C", "/repo", "worktree", "add", "-q", "--detach"
 res = {"repo_head": subprocess.check_output(["git", "-C", "/repo", "rev-parse", "--short", "HEAD"], text=True).strip()}
 try:
     demo_dir = meta["demo_pkg_dir"]
+    os.makedirs(os.path.join(wt, demo_dir), exist_ok=True)
     for f in meta["demo_files"]:
         shutil.copy(os.path.join(seed, f), os.path.join(wt, demo_dir, f))
     r = sh(meta["demo_cmd"])
